@@ -295,6 +295,10 @@ def do_actions(acts, where):
                 os.kill(os.getpid(), signal.SIGKILL)
             elif how == 'segv':
                 os.kill(os.getpid(), signal.SIGSEGV)
+            elif how == 'kbdint':
+                raise KeyboardInterrupt()       # (ends the process the way Ctrl-C / SIGINT does)
+            elif how in ('sysexit0', 'sysexit3'):
+                raise SystemExit(int(how[-1]))
             time.sleep(30)
         elif kind == 'die_in_child':
             # only dies when this process is a layer subprocess
